@@ -40,7 +40,7 @@ RULE = ("lludp hook: all pairs (quick) / triples (thorough) of 16 behaviours {re
         ". Round-5 additions: an addon loaded from a script file that hot-reloads a helper module, next to a healthy addon object; while traffic flows the files go bad (13 faults: dependency deleted / its directory replaced by a file / symlink loop / syntax error / raises on import; script deleted / directory gone / syntax error / raises on import / hook now raises / unload raises / init raises) and then change again (thorough: all 144 ordered pairs incl. the author repairing the script); the reload check runs before every message; every message must reach the healthy addon, the logger and the wire exactly once"
         ". Rounds 6-7: the script addon schedules a task that outlives it; after the faults, the avatar's arrival message (which kills region-scoped tasks) must still be delivered; datagrams whose body is cut short pass hooks that look inside and fail (deferred parsing): next addon still called, datagram forwarded once as it came"
         ". Round 8: several coroutine subscribers next to plain ones on one message - each called once with its own arguments"
-        ". Round 9: 13 kinds of messages the proxy itself reads or acts on (UseCircuitCode repeated on a live circuit, arrival, handshake, pings, acks, ...) under 6 hook behaviours each")
+        ". Round 9: 13 kinds of messages the proxy itself reads or acts on (UseCircuitCode repeated on a live circuit, arrival, handshake, pings, acks, ...) under 6 hook behaviours each. Round 11: the message names of waiters and block-scoped taking subscriptions are handed over as tuple / list / generator / iterator / map; a taking subscription whose block has been left")
 ASSUMPTIONS = [
     "claims = truthy return, take(), explicit drop, the proxy's command channel; everything else must be forwarded exactly once",
     "a deep copy an addon sends itself is a different message (marked in its payload) and is not counted",
@@ -48,7 +48,7 @@ ASSUMPTIONS = [
     "dropping a synthetic copy that was never sent is a no-op in the code and is not counted as 'dropped'",
 ]
 MUST_REACH = {"proxy_read_message_scenarios": 60, "scenarios": 500, "hook_exceptions_raised": 100, "claims_observed": 100, "followups_delivered": 500,
-              "ownership_sequences": 300, "illegal_reuse_rejected": 100, "subscriber_scenarios": 20, "predicate_scenarios": 8, "wait_for_scenarios": 4, "abandoned_wait_scenarios": 6, "rlv_scenarios": 6,
+              "ownership_sequences": 300, "illegal_reuse_rejected": 100, "subscriber_scenarios": 20, "predicate_scenarios": 8, "wait_for_scenarios": 4, "names_handed_over_as_generator": 2, "names_handed_over_as_iterator": 2, "abandoned_wait_scenarios": 6, "rlv_scenarios": 6,
               "packet_hook_scenarios": 6, "object_hook_scenarios": 2, "script_addon_scenarios": 20, "script_addon_faults_survived": 18,
               "script_addon_hook_runs": 20, "script_reloads_observed": 6,
               "script_addon_double_fault_scenarios": 10, "script_second_reloads_observed": 2,
@@ -894,15 +894,32 @@ def check_predicate(ctx, level, direction_in, reliable, pred_exc):
         h.close()
 
 
-def check_wait_for_multi(ctx, level, first_in, reliable):
+def _names_as(form, names):
+    """Round 11: message names are handed over as any iterable the signature allows."""
+    if form == "tuple":
+        return tuple(names)
+    if form == "list":
+        return list(names)
+    if form == "generator":
+        return (n for n in names)
+    if form == "iterator":
+        return iter(tuple(names))
+    return map(str, names)
+
+
+NAME_FORMS = ("tuple", "generator", "list", "iterator", "map")
+
+
+def check_wait_for_multi(ctx, level, first_in, reliable, form="tuple"):
     """A waiter for either of two message names (MessageHandler.wait_for, taking): the first arrival is the waiter's (a claim),
     after that it is gone - a later message of the OTHER name belongs to nobody and must be forwarded exactly once."""
     h = Harness(1)
     try:
         target = h.session.message_handler if level == "session" else h.region.message_handler
-        fut = target.wait_for(("ChatFromViewer", "ChatFromSimulator"), take=True)
+        fut = target.wait_for(_names_as(form, ("ChatFromViewer", "ChatFromSimulator")), take=True)
+        ctx.count("names_handed_over_as_" + form)
         wit = {"hook": f"{level}.message_handler.wait_for(two names)", "behaviour": "wait_for", "first": "in" if first_in else "out",
-               "reliable": reliable}
+               "reliable": reliable, "names_as": form}
         text1, data1 = h.chat(first_in, reliable)
         exc = h.feed(first_in, data1)
         ctx.ev()
@@ -933,7 +950,7 @@ def check_wait_for_multi(ctx, level, first_in, reliable):
         h.close()
 
 
-def check_wait_for_abandoned(ctx, level, direction_in, how):
+def check_wait_for_abandoned(ctx, level, direction_in, how, form="tuple"):
     """A waiter that gave up - its future was cancelled, or its timeout expired, or both in either order - must be gone:
     the next matching message belongs to nobody and is forwarded exactly once."""
     import asyncio
@@ -941,9 +958,16 @@ def check_wait_for_abandoned(ctx, level, direction_in, how):
     try:
         target = h.session.message_handler if level == "session" else h.region.message_handler
         name = "ChatFromSimulator" if direction_in else "ChatFromViewer"
-        wit = {"hook": f"{level}.message_handler.wait_for(timeout)", "behaviour": how, "direction": "in" if direction_in else "out"}
+        wit = {"hook": f"{level}.message_handler.wait_for(timeout)", "behaviour": how, "direction": "in" if direction_in else "out",
+               "names_as": form}
+        ctx.count("names_handed_over_as_" + form)
         async def abandon():
-            fut = target.wait_for((name,), timeout=0.02, take=True)     # needs a running loop for its timeout task
+            if how == "left_block":
+                # a taking subscription for the length of a block that has been left
+                with target.subscribe_async(_names_as(form, (name,)), take=True):
+                    await asyncio.sleep(0)
+                return None
+            fut = target.wait_for(_names_as(form, (name,)), timeout=0.02, take=True)     # needs a running loop for its timeout task
             if how == "cancel_then_timeout":
                 fut.cancel()
             await asyncio.sleep(0.06)                                    # the waiter's own timeout passes
@@ -1299,9 +1323,9 @@ def run(ctx):
     for level in ("session", "region"):
         for d in (False, True):
             for rel in (False, True):
-                others.append(("waitfor", level, d, rel))
-            for how in ("timeout_only", "cancel_then_timeout", "timeout_then_cancel"):
-                others.append(("abandoned", level, d, how))
+                others.append(("waitfor", level, d, rel, NAME_FORMS[len(others) % len(NAME_FORMS)]))
+            for how in ("timeout_only", "cancel_then_timeout", "timeout_then_cancel", "left_block"):
+                others.append(("abandoned", level, d, how, NAME_FORMS[len(others) % len(NAME_FORMS)]))
     for combo in itertools.product(["none", "true", "raise"], repeat=2):
         for n in (1, 2, 3):
             others.append(("rlv", combo, n))
